@@ -49,7 +49,7 @@ type XCase struct {
 // XStats is what a run observed.
 type XStats struct {
 	FiredAfterUpdate, FailingCallback, TwoActiveExports, Correlated, RetryThenPeer, DroppedUncorrelated, BothOrders, IncompleteCorrelating bool
-	firstSides                                                                                               map[string]bool
+	firstSides                                                                                                                             map[string]bool
 }
 
 // RunX interprets a history, checking after every action the expiry model, the structural
